@@ -190,7 +190,7 @@ func productPanic(r any, stack []byte) (Finding, bool) {
 		if !strings.Contains(l, "(") || strings.HasPrefix(l, "/") || strings.HasPrefix(l, "goroutine ") {
 			continue
 		}
-		if strings.HasPrefix(l, "runtime") || strings.HasPrefix(l, "panic(") || strings.HasPrefix(l, "main.productPanic") || strings.HasPrefix(l, "main.main.func") {
+		if strings.HasPrefix(l, "runtime") || strings.HasPrefix(l, "panic(") || strings.HasPrefix(l, "main.productPanic") || strings.HasPrefix(l, "main.main.func") || strings.HasPrefix(l, "main.doReplay.func") {
 			continue
 		}
 		if strings.Contains(l, "zzverif") || strings.HasPrefix(l, "main.") {
